@@ -5,7 +5,7 @@ import NomtModel.Core.TriePos
 Driver mode `caches` (C13 / C02): the Lean mirror of `PageCache`, `LeafCache`, `PageSet`
 (`Store/CacheModel.lean`, the cached read paths of `Store/CacheOps.lean` — the definitions the theorems of
 `Props/C13_Caches.lean` are about) behind a line protocol.  The harness (`harness/src/caches.rs`) drives the REAL caches
-through hook H20 on the same lines.  Page contents are tags (`Nat`).
+through hook H21 on the same lines.  Page contents are tags (`Nat`).
 
 * `pc new <dbg> <shards> <MiB> <levels> <root: tag/bucket|->` → `ok <dump with limits>` | `panic`
 * `pc limit <per root child>` → `ok <dump with limits>` | `panic`
